@@ -234,6 +234,133 @@ let engine_mapper (cases : string) (hxout : string) =
       | Some k -> String.sub o (k + 1) (String.length o - k - 1) | None -> "" in
     print_endline (mapper_case c otxt))
 
+(* ---------------------------------------------------------------- pipeline engine *)
+let mtype_char = function MCounter -> "c" | MGauge -> "g" | MSummary -> "s" | MHistogram -> "h"
+let mtype_name = function MCounter -> "counter" | MGauge -> "gauge" | MSummary -> "summary" | MHistogram -> "histogram"
+
+let sample_value_string (v : mvalue) : string =
+  match v with
+  | VCounter (i, f) -> hex_of_f (counter_value i f)
+  | VGauge x -> hex_of_f x
+  | VHist (bounds, counts, cnt, sum) ->
+    let rec cum bs cs acc = match bs, cs with
+      | b :: bs', c :: cs' -> let acc' = acc + int_of_n c in (hex_of_f b ^ ":" ^ string_of_int acc') :: cum bs' cs' acc'
+      | _, _ -> [] in
+    Printf.sprintf "%d/%s/%s" (int_of_n cnt) (hex_of_f sum) (String.concat "," (cum bounds counts 0))
+  | VSumm (objs, cnt, sum) ->
+    Printf.sprintf "%d/%s/%s" (int_of_n cnt) (hex_of_f sum) (String.concat "," (List.map hex_of_f objs))
+
+let pairs_string (l : (byte list * byte list) list) : string =
+  if l = [] then "-" else
+  String.concat "&" (List.sort compare (List.map (fun (k, v) -> hex_of_bytes k ^ "=" ^ hex_of_bytes v) l))
+
+let families_string (smp : sample list) : string list =
+  let names = List.sort_uniq compare (List.map (fun s -> hex_of_bytes s.sm_name) smp) in
+  List.map (fun nh ->
+    let ss = List.filter (fun s -> hex_of_bytes s.sm_name = nh) smp in
+    let first = List.hd ss in
+    let series = List.sort compare (List.map (fun s -> pairs_string s.sm_labels ^ "@" ^ sample_value_string s.sm_value) ss) in
+    Printf.sprintf "F:%s:%s:%s:%s" nh (mtype_char first.sm_type) (hex_of_bytes first.sm_help) (String.concat ";" series)) names
+  |> List.sort compare
+
+let tally_string (l : (byte list * n) list) : string =
+  let l = List.filter (fun (_, c) -> int_of_n c <> 0) l in
+  if l = [] then "-" else
+  String.concat "," (List.sort compare (List.map (fun (k, c) -> hex_of_bytes k ^ ":" ^ string_of_int (int_of_n c)) l))
+
+let telemetry_string (t : telemetry) (created : (mtype * n) list) : string =
+  let conflicts = if t.t_conflicts = [] then "-" else
+    String.concat "," (List.sort compare (List.map (fun ((ty, nm), c) ->
+      hex_of_bytes nm ^ "/" ^ hex_of_bytes ty ^ ":" ^ string_of_int (int_of_n c)) t.t_conflicts)) in
+  let unm = if int_of_n t.t_unmapped = 0 then "-" else ":" ^ string_of_int (int_of_n t.t_unmapped) in
+  let metrics = if created = [] then "-" else
+    String.concat "," (List.sort compare (List.map (fun (ty, c) ->
+      hex_of_bytes (bytes_of_string (mtype_name ty)) ^ ":" ^ string_of_int (int_of_n c)) created)) in
+  Printf.sprintf "T events=%s actions=%s unmapped=%s errors=%s conflicts=%s metrics=%s" (tally_string t.t_events)
+    (tally_string t.t_actions) unm (tally_string t.t_errors) conflicts metrics
+
+let builtin_samples : sample list =
+  let mk n h t v = { sm_name = bytes_of_string n; sm_help = bytes_of_string h; sm_type = t; sm_labels = []; sm_value = v } in
+  let z = f_of_hex "0000000000000000" in
+  [ mk "statsd_exporter_lines_total" "The total number of StatsD lines received." MCounter (VCounter (Z0, z));
+    mk "statsd_exporter_loaded_mappings" "The current number of configured metric mappings." MGauge (VGauge z);
+    mk "go_goroutines" "Number of goroutines that currently exist." MGauge (VGauge z) ]
+
+let pipeline_case (c : string) (ora : string) : string =
+  let compiles = Hashtbl.create 8 and matches = Hashtbl.create 16 and words = Hashtbl.create 8
+  and bts = Hashtbl.create 4 and floats = Hashtbl.create 32 in
+  List.iter (fun tok ->
+    match String.split_on_char ':' tok with
+    | ["C"; h; b] -> Hashtbl.replace compiles h (b = "1")
+    | ["M"; re; m; g] ->
+      let groups = if g = "N" then None else
+        Some (List.map (fun x -> if x = "!" then None else Some (bytes_of_hex x)) (String.split_on_char ',' g)) in
+      Hashtbl.replace matches (re ^ ":" ^ m) groups
+    | ["W"; cp; b] -> Hashtbl.replace words (int_of_string cp) (b = "1")
+    | ["B"; oi; b] -> Hashtbl.replace bts (int_of_string oi) (b = "1")
+    | ["F"; h; bits; e] -> Hashtbl.replace floats h (f_of_hex bits, e = "1")
+    | _ -> ()) (split_ws ora);
+  let uni_word (r : rune) = match Hashtbl.find_opt words (int_of_n r) with Some b -> b | None -> false in
+  let re_compiles (src : byte list) = match Hashtbl.find_opt compiles (hex_of_bytes src) with
+    | Some b -> b | None -> raise (Oracle_miss2 ("C:" ^ hex_of_bytes src)) in
+  let re_match (src : byte list) (m : byte list) = match Hashtbl.find_opt matches (hex_of_bytes src ^ ":" ^ hex_of_bytes m) with
+    | Some g -> g | None -> raise (Oracle_miss2 ("M:" ^ hex_of_bytes src ^ ":" ^ hex_of_bytes m)) in
+  let pf (b : byte list) = match Hashtbl.find_opt floats (hex_of_bytes b) with
+    | Some r -> r | None -> raise (Oracle_miss2 ("F:" ^ hex_of_bytes b)) in
+  let cur_op = ref 0 in
+  let heur_bt _ _ = match Hashtbl.find_opt bts !cur_op with Some b -> b | None -> false in
+  let ops = Str.split (Str.regexp_string " | ") c in
+  match ops with
+  | [] -> "BADCASE"
+  | hdr :: ops ->
+    let (fl, cache) = match split_ws hdr with
+      | [f; "lru"; n] -> (int_of_string f, Some (CLru { lru_max = nat_of_int (int_of_string n); lru_items = [] }))
+      | [f; "rr"; n] -> (int_of_string f, Some (CRr { rr_size = nat_of_int (int_of_string n); rr_items = [] }))
+      | f :: _ -> (int_of_string f, None)
+      | [] -> (0, None) in
+    let st = ref (init_sys (flags_of_int fl) cache (z_of_int 0)) in
+    let results = ref [] in
+    let do_step o = let (out, s') = step pf uni_word re_match heur_bt re_compiles cache_get cache_add cache_reset builtin_samples !st o in
+      st := s'; out in
+    (try
+      List.iteri (fun oi op ->
+        cur_op := oi;
+        let toks = Array.of_list (split_ws op) in
+        match toks.(0) with
+        | "L" ->
+          let r = { toks; pos = 4 } in
+          (match do_step (OpLoad (rd_config r)) with
+           | OutLoaded None -> results := "L ok" :: !results
+           | OutLoaded (Some e) -> results := ("L " ^ err_name e) :: !results
+           | _ -> results := "L ?" :: !results)
+        | "I" ->
+          (match do_step (OpLine (bytes_of_hex toks.(1))) with
+           | OutLine false -> results := "I ok" :: !results
+           | _ -> results := "I PANIC" :: !results)
+        | "A" -> ignore (do_step (OpAdvance (z_of_int (int_of_string toks.(1))))); results := "A" :: !results
+        | "S" -> ignore (do_step OpSweep); results := "S" :: !results
+        | "G" ->
+          (match do_step OpGather with
+           | OutGather (ok, smp, tel, created) ->
+             let t = telemetry_string tel created in
+             if ok then begin
+               let fams = families_string smp in
+               results := (String.concat " " (("G ok text=1" :: fams) @ [t])) :: !results end
+             else results := ("G err " ^ t) :: !results
+           | _ -> results := "G ?" :: !results)
+        | _ -> results := "BADOP" :: !results) ops
+    with Oracle_miss2 h -> results := ("ORACLE-MISS " ^ h) :: !results);
+    String.concat " | " (List.rev !results)
+
+let engine_pipeline (cases : string) (hxout : string) =
+  let ora = read_lines hxout in
+  let i = ref 0 in
+  iter_lines cases (fun c ->
+    let o = ora.(!i) in incr i;
+    let otxt = match String.index_opt o '\t' with
+      | Some k -> String.sub o (k + 1) (String.length o - k - 1) | None -> "" in
+    print_endline (pipeline_case c otxt))
+
 (* ---------------------------------------------------------------- model-internal self test:
    fsm_get_mapping against first_match / most_specific on an exhaustive small scope
    (a TEST of the theorem statements, not a proof) *)
@@ -284,5 +411,6 @@ let () =
   | _ :: "escape" :: cases :: _ -> engine_escape cases
   | _ :: "line" :: cases :: hxout :: _ -> engine_line cases hxout
   | _ :: "mapper" :: cases :: hxout :: _ -> engine_mapper cases hxout
+  | _ :: "pipeline" :: cases :: hxout :: _ -> engine_pipeline cases hxout
   | _ :: "selftest-fsm" :: n :: _ -> selftest_fsm (int_of_string n)
   | _ -> prerr_endline "usage: runner <engine> <casefile> [hx output]"; exit 2
